@@ -445,6 +445,8 @@ pub struct WorkerArgs {
     /// write the plan about to run into this file (crash isolation mode)
     pub cur_file: Option<String>,
     pub max_found: usize,
+    /// sensitivity sweeps only: stop as soon as any worker of the check has found a violation
+    pub stop_file: Option<String>,
 }
 
 pub fn worker(a: &WorkerArgs) -> Stats {
@@ -454,7 +456,17 @@ pub fn worker(a: &WorkerArgs) -> Stats {
     let tier = if a.thorough { "thorough" } else { "quick" };
     let mut idx = a.from;
     let mut seen: BTreeSet<Sig> = BTreeSet::new();
+    let mut since_poll = 0u32;
     while idx < a.to {
+        if let Some(sf) = &a.stop_file {
+            since_poll += 1;
+            if since_poll >= 16 {
+                since_poll = 0;
+                if std::path::Path::new(sf).exists() {
+                    break;
+                }
+            }
+        }
         let base = base_plan(a.seed, pn, idx, &prof);
         st.bases += 1;
         for op in &base.ops {
@@ -521,6 +533,12 @@ pub fn worker(a: &WorkerArgs) -> Stats {
             let out = run_plan(v);
             PROGRESS.fetch_add(1, std::sync::atomic::Ordering::Relaxed);
             handle(v, &out, &mut st);
+        }
+        if let Some(sf) = &a.stop_file {
+            if st.found.iter().any(|f| !f.known) {
+                let _ = std::fs::write(sf, "found");
+                break;
+            }
         }
         idx += a.stride;
     }
